@@ -11,7 +11,7 @@ from dataclasses import dataclass
 
 from vf import core
 
-SCRIPTS_QUICK = (("emit",), ("block",), ("block", "emit", "block"))
+SCRIPTS_QUICK = (("block",), ("emit", "block", "block"))
 SCRIPTS_THOROUGH = ((), ("emit",), ("block",), ("block", "block"), ("emit", "block", "emit"))
 LAYERS = ("A", "B")
 
@@ -50,7 +50,9 @@ def run_scenario(sc, scripts):
     counter = {"cmd": 0}
     srv = connection.Server(address=("b", 1))
     srv.state = connection.ConnectionState.OPEN
-    conns = {"A": ctx.client, "B": srv}
+    srv_r = connection.Server(address=("r", 1))
+    srv_r.state = connection.ConnectionState.OPEN
+    conns = {"A": ctx.client, "B": srv, "R": srv_r}
     by_conn = {id(v): k for k, v in conns.items()}
 
     def new_cmd():
@@ -79,6 +81,8 @@ def run_scenario(sc, scripts):
     class Router(layer.Layer):
         """Pass-through parent with the command_sources routing idiom of HttpLayer.event_to_child."""
 
+        name = "R"
+
         def __init__(self, context):
             super().__init__(context)
             self.children = {n: Child(context.fork(), n) for n in LAYERS}
@@ -87,6 +91,16 @@ def run_scenario(sc, scripts):
         def _handle_event(self, event):
             if isinstance(event, events.CommandCompleted):
                 child = self.command_sources.pop(event.command)
+            elif isinstance(event, events.ConnectionEvent) and by_conn[id(event.connection)] == "R":
+                # an event for the router itself: it blocks once on a command of its own
+                eid = event.data[0]
+                trace.append({"k": "enter", "L": "R", "e": eid})
+                c = Ask(new_cmd())
+                trace.append({"k": "block", "L": "R", "c": c.n})
+                r = yield c
+                trace.append({"k": "resume", "L": "R", "c": c.n, "r": r if isinstance(r, int) else -1})
+                trace.append({"k": "exit", "L": "R", "e": eid})
+                return
             elif isinstance(event, events.ConnectionEvent):
                 child = self.children[by_conn[id(event.connection)]]
             else:
@@ -95,6 +109,8 @@ def run_scenario(sc, scripts):
                 if command.blocking:
                     self.command_sources[command] = child
                 yield command
+            return
+            yield  # pragma: no cover
 
     top = layer.NextLayer(ctx)
     asks: dict[int, commands.Command] = {}
@@ -110,6 +126,7 @@ def run_scenario(sc, scripts):
                 blocks[c.n] = c
 
     eid = 0
+    completed: set[int] = set()
     for op in sc["ops"]:
         if op[0] == "arrive":
             eid += 1
@@ -128,11 +145,13 @@ def run_scenario(sc, scripts):
         elif op[0] == "complete":
             L = op[1]
             # the command L currently waits for: the one with the highest number issued by L and not yet completed
-            cand = [n for n, c in blocks.items() if c.blocking is not True and getattr(c.blocking, "name", None) == L]
+            cand = [n for n, c in blocks.items() if c.blocking is not True and getattr(c.blocking, "name", None) == L
+                    and n not in completed]
             if not cand:
                 break  # diverged: L is not waiting in the real code
-            n = max(cand)
-            cmd = blocks.pop(n)
+            n = min(cand)
+            completed.add(n)
+            cmd = blocks[n]
             r = 10 + n
             trace.append({"k": "complete", "c": n, "r": r})
             collect(list(top.handle_event(AskCompleted(cmd, r))))
@@ -148,21 +167,22 @@ class Check(core.PropertyCheck):
     MODEL = "LayerQueue"
     MON = "Mon_LayerQueue"
     REQUIRED_WITNESSES = ("arrive_while_sibling_blocked", "arrive_while_blocked", "arrive_before_choice", "resume",
-                          "resume_with_queue", "chosen", "not_chosen")
-    REQUIRED_ACTIONS = ("Arrive", "AskDone", "Complete")
+                          "resume_with_queue", "chosen", "not_chosen", "arrive_while_parent_blocked",
+                          "child_completion_while_parent_blocked")
+    REQUIRED_ACTIONS = ("Arrive", "AskDone", "Complete", "CompleteR")
     ASSUMPTIONS = (
         "child handler bodies and the pass-through router are harness code (the router copies the command_sources idiom "
         "of HttpLayer.event_to_child); the pause/queue/resume machinery under test is mitmproxy's Layer and NextLayer",
     )
 
     def mon_constants(self, tier):
-        return {"Layers": frozenset(LAYERS)}
+        return {"Children": frozenset(LAYERS)}
 
     def _scripts(self, tier):
         return SCRIPTS_QUICK if tier == "quick" else SCRIPTS_THOROUGH
 
     def model_constants(self, tier):
-        return {"Layers": frozenset(LAYERS), "MaxEvents": 3 if tier == "quick" else 4, "Scripts": self._scripts(tier)}
+        return {"Children": frozenset(LAYERS), "MaxEvents": 3 if tier == "quick" else 4, "Scripts": self._scripts(tier)}
 
     def model_runs(self, ctx):
         self.tier = ctx.tier
@@ -170,7 +190,7 @@ class Check(core.PropertyCheck):
             return [ctx.model_check(self.MODEL, self.model_constants("quick"), dump=True)]
         # thorough: exhaustive statistics on the larger instance (no dump), behaviours from the dumped smaller one
         big = ctx.model_check(self.MODEL, self.model_constants("thorough"), dump=False, tag="_big")
-        small = ctx.model_check(self.MODEL, {"Layers": frozenset(LAYERS), "MaxEvents": 3, "Scripts": SCRIPTS_THOROUGH},
+        small = ctx.model_check(self.MODEL, {"Children": frozenset(LAYERS), "MaxEvents": 3, "Scripts": SCRIPTS_THOROUGH},
                                 dump=True)
         return [small, big]
 
@@ -184,6 +204,8 @@ class Check(core.PropertyCheck):
                 ops.append(["ask_done", bool(args[0])])
             elif name == "Complete":
                 ops.append(["complete", args[0]])
+            elif name == "CompleteR":
+                ops.append(["complete", "R"])
             elif name == "Finish":
                 ops.append(["end"])
         return ops
@@ -192,7 +214,7 @@ class Check(core.PropertyCheck):
         scripts = SCRIPTS_QUICK if ctx.quick else SCRIPTS_THOROUGH
         g = models[0].graph
         behs = g.edge_cover(ctx.rng, max_len=30, tail=6)
-        behs += g.random_walks(ctx.rng, 1500 if ctx.quick else 20000, 24)
+        behs += g.random_walks(ctx.rng, 600 if ctx.quick else 20000, 24)
         for b in behs:
             ops = self._ops(b)
             pred = core.predicted_events(b)
@@ -252,7 +274,7 @@ class Check(core.PropertyCheck):
             c = rng.choice(choices)
             if c[0] == "arrive":
                 arrivals += 1
-                ops.append(["arrive", rng.choice(LAYERS), rng.randint(1, len(scripts))])
+                ops.append(["arrive", rng.choice(LAYERS + ("R",)), rng.randint(1, len(scripts))])
             elif c[0] == "ask_done":
                 ops.append(["ask_done", rng.random() < 0.6])
             else:
